@@ -175,6 +175,11 @@ func GenBearer(t *rapid.T) BearerCase {
 	}
 	if c.Query {
 		c.QueryTok = kit.BStr(nonEmpty(genSecret(t, "query-tok"), "q"))
+		// (not next to a multipart body: there net/http's FormValue lists the query value first, so a valueless query
+		// parameter shadows the form field on the unchanged tree as well - noted in DESIGN.md section 5b, not judged)
+		if !strings.HasPrefix(c.Body, "multipart") && rapid.IntRange(0, 3).Draw(t, "query-parameter-without-value") == 0 {
+			c.QueryTok = ""
+		}
 	}
 	if c.Body != "" {
 		c.BodyTok = kit.BStr(nonEmpty(genSecret(t, "body-tok"), "b"))
@@ -338,7 +343,10 @@ func ClassifyBearer(c BearerCase) (bool, []string) {
 	if c.Header == "bearer" {
 		n++
 	}
-	if c.Query {
+	if c.Query && c.QueryTok == "" {
+		l["access_token query parameter without a value"] = true
+	}
+	if c.Query && c.QueryTok != "" {
 		n++
 		l["query token"] = true
 	}
